@@ -240,6 +240,13 @@ func ReleaseNext() (label string, ok, done bool) {
 	return l, true, false
 }
 
+// AbandonOrder makes ReleaseNext ignore the rest of the recorded gate order.
+func AbandonOrder() {
+	st.mu.Lock()
+	st.gatePos = len(st.r.Gates)
+	st.mu.Unlock()
+}
+
 // Parked lists the labels with parked goroutines (diagnostics).
 func Parked() string {
 	st.mu.Lock()
